@@ -19,6 +19,7 @@ from .interp import SymRange, _MISSING, ExcClass, _EXC
 
 class BlockRow:
     """np.hstack of real matrices: only norms are taken of it."""
+    qv_value = True
 
     def __init__(self, parts):
         self.parts = parts
